@@ -327,7 +327,7 @@ def admissible_orders(method, nv):
     return [k for k in range(2, 9) if k < nv]
 
 
-NICE_DP = [0.1, 0.2, 0.25, 0.5, 1.0, 2.0, 2.5, 5.0, 10.0]
+NICE_DP = [0.1, 0.125, 0.2, 0.25, 0.5, 1.0, 1.25, 2.0, 2.5, 5.0, 10.0]
 DT_CHOICES = [0.5, 1.0, 2.0, 5.0, 10.0, 25.0, 37.5, 50.0, 100.0, 150.0, 250.0, 500.0]
 
 
@@ -349,7 +349,7 @@ def gen_settings(rng, tier, phonon, static, method=None, order=None, overshoot=F
     eff_ratio = 1.2 if ratio is None else ratio
     vmin = phonon["volumes"][-1] / eff_ratio
     pmax_static = bm3_pressure(vmin, phonon["v0"], phonon["b0"], phonon["bp"]) * RY_B3_TO_GPA
-    p_min = rng.choice([0, 0, 0, 2, 5, 10])
+    p_min = rng.choice([0, 0, 0, 2, 5, 10, 0.25, 2.5, 1.125])
     ntv = rng.randint(6, 20 if big else 14)
     budget = 0.75 * pmax_static - p_min
     if overshoot:
@@ -363,11 +363,11 @@ def gen_settings(rng, tier, phonon, static, method=None, order=None, overshoot=F
             p_min = 0
             budget = 0.75 * pmax_static
             cands = [d for d in NICE_DP if d * (ntv - 1) <= budget] or [0.1]
-        dp = rng.choice(cands[-3:])
+        dp = rng.choice(cands[-3:]) if rng.random() < 0.6 else rng.choice(cands)
     qs["T_MIN"] = t_min
     qs["NT"] = nt
     qs["DT"] = dt if dt != int(dt) or rng.random() < 0.3 else int(dt)
-    qs["P_MIN"] = p_min
+    qs["P_MIN"] = p_min if p_min != int(p_min) else int(p_min)
     qs["NTV"] = ntv
     qs["DELTA_P"] = dp if dp != int(dp) or rng.random() < 0.3 else int(dp)
     if rng.random() < 0.5:
